@@ -27,7 +27,7 @@ var (
 	c06Time   = []string{"now", "-1h", "+1h", "garbled", "empty", "missing"}
 	c06Seq    = []string{"T", "T-1", "T+1", "missing", "empty", "garbled"}
 	c06PD     = []string{"absent", "Y", "N", "garbled"}
-	c06Orig   = []string{"absent", "earlier", "later", "garbled"}
+	c06Orig   = []string{"absent", "earlier", "later", "garbled", "same"} // same: OrigSendingTime = SendingTime (replayed within the tick; only with 43=Y)
 	c06Types  = []string{"D", "0", "1", "2", "3", "4g", "4r", "5", "A", "ZZ"}
 	c06States = []string{"normal", "recovering", "pending", "pending+recovering", "logout"}
 	// message-validation defects that need no dictionary (validator settings ValidateFieldsHaveValues /
@@ -159,6 +159,8 @@ func c06Build(w *sessmc.World, c c06Case) (*sessmc.In, time.Time) {
 		in.Set = append(in.Set, fixscan.Field{122, fixscan.Stamp(sending.Add(time.Minute))})
 	case "garbled":
 		in.Set = append(in.Set, fixscan.Field{122, "yesterday"})
+	case "same":
+		in.OrigSame = true // stamped by the same clock reading as SendingTime
 	}
 	if c.Routing {
 		in.Set = append(in.Set, fixscan.Field{50, "PSUB"}, fixscan.Field{142, "PLOC"})
@@ -340,6 +342,19 @@ func c06ExpectedInner(c c06Case) (allowed []c06Allowed, gateClosed bool, mandato
 		} else if recovering && !c.Cfg.NoCheckLatency {
 			allowed = append(allowed, c06Allowed{class: "rej", tag: 52})
 		}
+	}
+	if c.Cfg.DataDictionary != "" {
+		switch c06Time[c.Time] {
+		case "missing": // required by every dictionary's header
+			allowed = append(allowed, c06Allowed{class: "rej", tag: 52})
+			gateClosed = true
+		case "garbled": // ill-typed for UTCTIMESTAMP when field checks are on
+			if c.Cfg.Extra["RejectInvalidMessage"] != "N" {
+				allowed = append(allowed, c06Allowed{class: "rej", tag: 52})
+			}
+		}
+	}
+	switch c06Time[c.Time] {
 	case "empty":
 		// an empty SendingTime fails the time check when there is one, and message validation otherwise
 		if latency || c06HaveValues(c.Cfg) {
@@ -374,7 +389,7 @@ func c06ExpectedInner(c c06Case) (allowed []c06Allowed, gateClosed bool, mandato
 					allowed = append(allowed, c06Allowed{class: "rej", tag: 122})
 				case "garbled":
 					allowed = append(allowed, c06Allowed{class: "rej", tag: 122})
-				case "earlier":
+				case "earlier", "same":
 					allowed = append(allowed, c06Allowed{class: "silent"})
 				case "later":
 					allowed = append(allowed, c06Allowed{class: "rej+logout", reason: 10})
@@ -416,6 +431,7 @@ func c06Eval(c c06Case) (rule, what string, err error) {
 	T0 := w.T()
 	in, _ := c06Build(w, c)
 	ev := &sessmc.Event{K: "in", Name: "in(case)", In: in}
+	stash0 := w.VS.Snapshot().Stash // numbers kept before the case message arrives
 	obs := w.Apply(ev)
 	var outs []sessmc.Obs
 	delivered, onLogon := false, false
@@ -487,7 +503,17 @@ func c06Eval(c c06Case) (rule, what string, err error) {
 		if w.LastIn != nil {
 			if v, ok := w.LastIn.Get(34); ok {
 				if n, e := strconv.Atoi(v); e == nil {
-					if q, ok := r.Int(45); !ok || q != n {
+					q, ok := r.Int(45)
+					keptOne := false
+					for _, k := range stash0 {
+						if ok && k == q && q != n {
+							keptOne = true // the Reject answers a kept message processed (and refused) in the same transition
+						}
+					}
+					if keptOne {
+						continue
+					}
+					if !ok || q != n {
 						return "C06/Q-refseqnum", fmt.Sprintf("Reject RefSeqNum=%v for offending MsgSeqNum %d: %s", q, n, c), nil
 					}
 				}
@@ -601,7 +627,7 @@ func runC06(c *core.Ctx) {
 	} else {
 		c.SetDeadline(45 * time.Minute)
 	}
-	c.SetRule("cartesian product of header-field variants (BeginString 2 x SenderCompID 4 x TargetCompID 4 x SendingTime 6 x MsgSeqNum 6 x PossDupFlag 4 x OrigSendingTime 4 x MsgType 10 x validation defect 4 {none, empty body field, empty routing header field, header field after the body}) delivered to a real session in each of 5 states and each configuration; quick: at most two non-default axes per message, thorough: full product for two configurations and pairs elsewhere; distinct = distinct (config,state,message) triples")
+	c.SetRule("cartesian product of header-field variants (BeginString 2 x SenderCompID 4 x TargetCompID 4 x SendingTime 6 x MsgSeqNum 6 x PossDupFlag 4 x OrigSendingTime 5 x MsgType 10 x validation defect 4 {none, empty body field, empty routing header field, header field after the body}) delivered to a real session in each of 5 states and each configuration; quick: at most two non-default axes per message, thorough: full product for two configurations and pairs elsewhere; distinct = distinct (config,state,message) triples")
 	c.Assume("oracle is set-valued: with several defects present any reaction mandated for one of them is accepted", "in-session Logon messages are judged only by the only-if part",
 		"Reject naming the field: RefTagID (FIX.4.2+) or the '(tag)' suffix of Text (FIX.4.0/4.1)", "SendingTime fresh to within a second; MaxLatency default 120 s; stale = 1 h",
 		"validator settings: ValidateFieldsOutOfOrder / ValidateFieldsHaveValues each N alone and together, with and without a dictionary (RejectInvalidMessage=N); a validation defect closes the gate exactly when its setting is on")
@@ -632,6 +658,9 @@ func runC06(c *core.Ctx) {
 													}
 												}
 												if !seqChecked(c06Types[ty]) && sq != 0 {
+													continue
+												}
+												if c06Orig[or] == "same" && c06PD[pd] != "Y" {
 													continue
 												}
 												if full && val != 0 && nd > 3 {
